@@ -174,6 +174,40 @@ fn bad_entries() -> Vec<Bad> {
     ]
 }
 
+/// syntax errors whose stop position is (for most of them) exactly the end of a line: a
+/// keyword whose argument is missing, a posting line that ends after its clear mark, ...
+/// A few neighbours that stop in the middle of the line are kept for contrast; where the real
+/// parser stopped is measured per case (`eol:stop-at-line-end`).
+fn eol_bad_entries() -> Vec<Bad> {
+    let b = |name, lines: &[&'static str]| Bad { name, kind: 1, lines: lines.to_vec(), valid_head: 0 };
+    vec![
+        b("eol:account", &["account"]),
+        b("eol:include", &["include"]),
+        b("eol:commodity", &["commodity"]),
+        b("eol:apply", &["apply"]),
+        b("eol:apply-tag", &["apply tag"]),
+        b("eol:apply-tag-blank", &["apply tag "]),
+        b("eol:apply-two-blanks-tag", &["apply  tag"]),
+        b("eol:end", &["end"]),
+        b("eol:end-apply", &["end apply"]),
+        b("eol:end-apply-blanks", &["end apply  "]),
+        b("eol:date-equals", &["2024/01/05="]),
+        b("eol:posting-pending-only", &["2024/01/05 x", "  !"]),
+        b("eol:posting-pending-blank", &["2024/01/05 スーパー", "  ; メモ", "  ! "]),
+        b("eol:posting-pending-tab", &["2024/01/05 x", "  A  1 USD", "  !\t"]),
+        b("eol:posting-cleared-blank", &["2024/01/05 x", "  A  1 USD", "  ; c", "  * "]),
+        b("eol:posting-cleared-only", &["2024/01/05 x ; 円", "  Expenses:食費  100 円", "  *"]),
+        // contrast: the parser stops inside the last line, not at its end
+        b("eol:mid-end-apply-tag-extra", &["end apply tag x"]),
+        b("eol:mid-short-date", &["2024/01"]),
+        b("eol:mid-assertion-without-value", &["2024/01/05 x", "  A  1 USD ="]),
+    ]
+}
+
+const FOLLOWERS: [&str; 9] = [
+    "eof-no-newline", "eof-after-newline", "blank-line", "line-of-blanks", "transaction", "comment", "directive", "indented-line", "multibyte-text",
+];
+
 struct Case {
     files: Vec<(String, String)>, // path relative to the root dir ("main.ledger", "sub/a.ledger", ...)
     bad_file: usize,
@@ -183,6 +217,8 @@ struct Case {
     entry_index: usize,
     bad: usize,
     depth: usize,
+    /// the line after the invalid entry's last line is not blank
+    direct: bool,
 }
 
 fn count_lines(s: &str) -> usize {
@@ -242,16 +278,122 @@ fn gen_case(r: &mut Rng, bads: &[Bad], k: usize) -> Case {
         }
     }
     let last_line = first_line + b.lines.len() - 1 - b.valid_head;
+    let mut direct = false;
     if t.ends_with('\n') && g.r.chance(1, 2) {
-        t.push_str(g.nl());
-        t.push_str(&g.valid_block(2));
+        if g.r.chance(1, 3) {
+            // the next entry starts directly on the following line: no blank line in between
+            direct = true;
+            let e = g.valid_entry();
+            t.push_str(&e);
+            t.push_str(&g.valid_block(1));
+        } else {
+            t.push_str(g.nl());
+            t.push_str(&g.valid_block(2));
+        }
     }
     files.push((names[depth].to_string(), t));
     let bad_file = files.len() - 1;
     if let Some(sf) = side_file {
         files.push(sf);
     }
-    Case { files, bad_file, first_line, last_line, entry_index, bad, depth }
+    Case { files, bad_file, first_line, last_line, entry_index, bad, depth, direct }
+}
+
+/// an end-of-line syntax error with a chosen follower: what stands directly after the line
+/// where parsing stops (nothing, a line end only, a blank line, and - without any blank line in
+/// between - a transaction, a comment, a directive, an indented line, multi-byte text)
+fn gen_eol_case(r: &mut Rng, bads: &[Bad], first_eol: usize, k: usize) -> (Case, usize) {
+    let n_eol = bads.len() - first_eol;
+    let bad = first_eol + k % n_eol;
+    let follower = (k / n_eol) % FOLLOWERS.len();
+    let cross = k / (n_eol * FOLLOWERS.len());
+    // the first cross is half LF, then CRLF and mixed; later crosses are random
+    let crlf = if cross == 0 { [0u8, 1, 0, 2][(k + follower) % 4] } else { [0u8, 0, 1, 2][r.below(4) as usize] };
+    let depth = if (k + cross) % 3 == 0 { 1 } else { 0 };
+    let mut g = G { r, crlf };
+    let mut files = Vec::new();
+    if depth == 1 {
+        let mut t = g.valid_block(2);
+        t.push_str("include sub/a.ledger");
+        t.push_str(g.nl());
+        files.push(("main.ledger".to_string(), t));
+    }
+    let mut pre = g.valid_block(if k % 4 == 0 { 0 } else { 2 });
+    // now and then the invalid entry itself follows the previous entry without a blank line
+    if !pre.is_empty() && g.r.chance(1, 3) {
+        let e = g.valid_entry();
+        pre.push_str(&e);
+    }
+    let first_line = 1 + count_lines(&pre);
+    let entry_index = count_entries(&pre);
+    let b = &bads[bad];
+    let mut t = pre;
+    for (i, l) in b.lines.iter().enumerate() {
+        if i > 0 {
+            t.push_str(g.nl());
+        }
+        t.push_str(l);
+    }
+    let last_line = first_line + b.lines.len() - 1;
+    match follower {
+        0 => {}
+        1 => t.push_str(g.nl()),
+        2 => {
+            t.push_str(g.nl());
+            t.push_str(g.nl());
+            t.push_str(&g.valid_block(2));
+        }
+        3 => {
+            t.push_str(g.nl());
+            t.push_str(if g.r.chance(1, 2) { "  " } else { "\t" });
+            t.push_str(g.nl());
+            t.push_str(&g.valid_block(2));
+        }
+        _ => {
+            t.push_str(g.nl());
+            let line: String = match follower {
+                4 => {
+                    let nl = g.nl();
+                    format!("2024/02/0{} {}{}  A  {} USD{}  B{}", 1 + g.r.below(9), g.word(), nl, 1 + g.r.below(500), nl, nl)
+                }
+                5 => {
+                    let p = *g.r.pick(&[';', '#', '%', '|', '*']);
+                    format!("{} {}{}", p, g.word(), g.nl())
+                }
+                6 => {
+                    let d = *g.r.pick(&["account Assets:Next", "commodity XAU", "account X"]);
+                    format!("{}{}", d, g.nl())
+                }
+                7 => {
+                    let d = *g.r.pick(&["  ; note", "  B  1 USD", "  note x", "\tC", " x"]);
+                    format!("{}{}", d, g.nl())
+                }
+                _ => {
+                    let d = *g.r.pick(&["; 直後のコメント", "account 資産:現金", "commodity 円", "; 😀"]);
+                    format!("{}{}", d, g.nl())
+                }
+            };
+            t.push_str(&line);
+            if g.r.chance(1, 2) {
+                t.push_str(&g.valid_block(1));
+            }
+        }
+    }
+    let name = if depth == 1 { "sub/a.ledger" } else { "main.ledger" };
+    files.push((name.to_string(), t));
+    let bad_file = files.len() - 1;
+    (Case { files, bad_file, first_line, last_line, entry_index, bad, depth, direct: follower >= 4 }, follower)
+}
+
+/// does the real parser stop exactly at a line end (or at the end of the text)?
+fn stops_at_line_end(text: &str) -> Option<bool> {
+    let o = parseobs::observe_parse(text);
+    let e = o.err.as_ref()?;
+    let pos = e.text_start + e.span.0;
+    Some(match text.as_bytes().get(pos) {
+        None => true,
+        Some(c) => *c == b'\n' || *c == b'\r',
+    })
 }
 
 fn strip_ansi(s: &str) -> String {
@@ -376,12 +518,24 @@ fn diag_term(d: &Value, expect_path: &str) -> String {
 pub fn run(o: &Opts) {
     let mut st = Stats::new();
     let mut sh = Shards::new(&o.out, o.shards, &crate::c05::header("Classify_C14"));
-    st.rule = "a case is a file tree with exactly one invalid entry (16 syntax error kinds, 10 book-keeping error kinds) after random valid content (transactions, comments, declarations, blank lines with and without blanks, LF/CRLF/mixed, multi-byte text), in the root or in an included file at depth 1..3; observed: the plain-rendered Display chain of report::process's error on a FakeFileSystem (child process) and `okane balance` stderr through cli::run on real scratch files: named path, `-->` header line, gutter line numbers; non-trivial = the bad entry is not the first entry of the root file; distinct by file tree".to_string();
+    st.rule = "a case is a file tree with exactly one invalid entry (16 syntax error kinds, 10 book-keeping error kinds) after random valid content (transactions, comments, declarations, blank lines with and without blanks, LF/CRLF/mixed, multi-byte text), in the root or in an included file at depth 1..3, followed by the end of the file, a blank line or - one case in six - directly by the next entry; plus the stream `end-of-line-error`: 19 syntax errors most of which stop exactly at a line end, counted as eol:stop-at-line-end (a keyword without its argument, a posting line that ends after its clear mark, ...) crossed with 9 followers of that line (end of file with and without a line end, blank line, line of blanks, and directly on the next line a transaction, a comment, a directive, an indented line, multi-byte text), LF/CRLF/mixed, root or included file; observed: the plain-rendered Display chain of report::process's error on a FakeFileSystem (child process) and `okane balance` stderr through cli::run on real scratch files: named path, `-->` header line, gutter line numbers; non-trivial = the bad entry is not the first entry of the root file; distinct by file tree".to_string();
     st.assumptions.push("the renderer (annotate-snippets) numbers a shown line as line_start + newlines before it".to_string());
-    let bads = bad_entries();
-    let n = if o.thorough { bads.len() * 4 * 12 } else { bads.len() * 4 * 2 };
+    let mut bads = bad_entries();
+    let n_general = bads.len();
+    bads.extend(eol_bad_entries());
+    let n_eol = bads.len() - n_general;
+    let n = if o.thorough { n_general * 4 * 12 } else { n_general * 4 * 2 };
     let mut r = Rng::new(o.seed, 14);
-    let cases: Vec<Case> = (0..n).map(|k| gen_case(&mut r, &bads, k)).collect();
+    let mut cases: Vec<Case> = (0..n).map(|k| gen_case(&mut r, &bads[..n_general], k)).collect();
+    let mut followers: Vec<Option<usize>> = vec![None; cases.len()];
+    // end-of-line syntax errors x what follows the line: one full cross per round
+    let n_eol_cases = n_eol * FOLLOWERS.len() * if o.thorough { 6 } else { 1 };
+    let mut r2 = Rng::new(o.seed, 1414);
+    for k in 0..n_eol_cases {
+        let (c, f) = gen_eol_case(&mut r2, &bads, n_general, k);
+        cases.push(c);
+        followers.push(Some(f));
+    }
     // leg 1: FakeFileSystem in child processes
     let inputs: Vec<Vec<u8>> = cases
         .iter()
@@ -441,12 +595,25 @@ pub fn run(o: &Opts) {
         st.eval(&c.files, nontrivial);
         st.count(&format!("bad:{}", b.name));
         st.count(&format!("depth:{}", c.depth));
+        if c.direct {
+            st.count("next-line-not-blank");
+        }
+        if let Some(f) = followers[k] {
+            st.count("stream:end-of-line-error");
+            st.count(&format!("follower:{}", FOLLOWERS[f]));
+            match stops_at_line_end(&c.files[c.bad_file].1) {
+                Some(true) => st.count("eol:stop-at-line-end"),
+                Some(false) => st.count("eol:stop-inside-line"),
+                None => st.count("eol:no-syntax-error"),
+            }
+        }
         st.count(if accepted { "impl:accepted" } else { "impl:rejected" });
         if let Some(inner) = fake_json["inner"].as_str() {
             st.count(&format!("error:{}", inner));
         }
         let rep = json!({"property": "C14", "files": c.files, "bad_entry": b.name, "bad_file": c.files[c.bad_file].0,
                          "first_line": c.first_line, "last_line": c.last_line, "depth": c.depth,
+                         "follower": followers[k].map(|f| FOLLOWERS[f]),
                          "impl": {"process_on_fake_fs": fake_json, "cli_balance_stderr": strip_ansi(&cr.stderr), "cli_diag": cli_diag},
                          "reproduce": "report::process(Loader::new(\"/r/main.ledger\", FakeFileSystem)) ; okane balance <root>"});
         if nontrivial && c.depth > 0 {
